@@ -136,6 +136,7 @@ func init() {
 	reg("syscallerr", Wrap, 1, nil, nil, false, 1)
 	reg("operr", Wrap, 2, ix(1), nil, false, 1)
 	reg("nofmtwrap", Wrap, 1, ix(0), nil, false, 2)
+	reg("aswrap", Wrap, 1, ix(0), nil, false, 1)
 	reg("causewrap", Wrap, 1, ix(0), nil, false, 1)
 	reg("fmtwrap", Wrap, 1, ix(0), nil, false, 2)
 	reg("safefmtwrap", Wrap, 1, ix(0), nil, false, 2)
@@ -379,6 +380,8 @@ func Build1(n *Node, m Built) error {
 		return os.NewSyscallError(S[0], kids[0])
 	case "operr":
 		return &net.OpError{Op: S[0], Net: "tcp", Addr: &net.UnixAddr{Name: S[1], Net: "unix"}, Err: kids[0]}
+	case "aswrap":
+		return &AsWrap{kids[0], S[0]}
 	case "nofmtwrap":
 		return &NoFmtWrap{kids[0], S[0]}
 	case "causewrap":
